@@ -64,6 +64,16 @@ def cmd_replay(prop, path, quiet):
     ad = get_adapter(prop)
     with open(path) as f:
         doc = json.load(f)
+    if doc.get('kind') == 'hashseed':
+        os.environ['VERIF_SEED'] = str(doc.get('base_seed', 0))
+        hv = hashseed_probe(prop, doc.get('tier', 'quick'), doc['run_index'])
+        print(json.dumps(hv))
+        if hv['deterministic_per_seed'] and hv['differs_between_seeds']:
+            print('REPRODUCED key=P2hash run_index=%d' % doc['run_index'])
+            print('VIOLATION property=%s replay=%s' % (prop, path))
+            return 1
+        print('replay: results do not depend on the hash seed')
+        return 0
     plan = doc['plan'] if 'plan' in doc else doc
     ad.prepare_replay() if hasattr(ad, 'prepare_replay') else None
     r = ad.execute_full(plan)
@@ -129,6 +139,26 @@ def determinism_join(h):
     return {'runs': h['count'], 'interpreters': 2, 'hashseeds': [0, 4242], 'identical': ok, 'first_diffs': diff[:5]}
 
 
+def hashseed_probe(prop, tier, i):
+    """Digest of run i under PYTHONHASHSEED 0 and 4242, twice each, in fresh interpreters."""
+    import subprocess
+    procs = []
+    for hs in ('0', '0', '4242', '4242'):
+        env = dict(os.environ)
+        env.pop('KNEESIM_PINNED', None)
+        env['KNEESIM_HASHSEED'] = hs
+        procs.append((hs, subprocess.Popen([sys.executable, os.path.abspath(__file__), prop, '--digest', str(i), '1', '--tier', tier],
+                                           env=env, stdout=subprocess.PIPE, stderr=subprocess.PIPE, text=True)))
+    out = {'0': [], '4242': []}
+    for hs, p in procs:
+        so, se = p.communicate(timeout=1800)
+        line = [l for l in so.splitlines() if l.startswith('DIGESTS ')]
+        out[hs].append(json.loads(line[0][8:])[0] if line else 'failed')
+    return {'run_index': i, 'digests': out,
+            'deterministic_per_seed': out['0'][0] == out['0'][1] and out['4242'][0] == out['4242'][1] and 'failed' not in out['0'] + out['4242'],
+            'differs_between_seeds': out['0'][0] != out['4242'][0]}
+
+
 def worker_count_selftest(ad, tier, base, count):
     """The same runs at two worker counts must give identical per-run event-log digests."""
     from sim import runner
@@ -160,6 +190,23 @@ def cmd_check(prop, tier, nruns_override=None, workers=None, selftest=True):
         if tier == 'thorough':
             det['worker_counts'] = worker_count_selftest(ad, tier, base, 600)
             det['identical'] = det['identical'] and det['worker_counts']['identical']
+        if not det['identical'] and det.get('first_diffs'):
+            # Same run, same code, two interpreters that differ only in PYTHONHASHSEED.  If each hash seed is
+            # consistent with itself and they differ from each other, the run's results depend on the hash seed:
+            # the library does not return identical results when called again in another process (clause b).
+            i = det['first_diffs'][0]
+            hv = hashseed_probe(prop, tier, i)
+            det['hashseed_probe'] = hv
+            if hv['deterministic_per_seed'] and hv['differs_between_seeds']:
+                os.makedirs(os.path.join(core.OUT_DIR, 'replays'), exist_ok=True)
+                path = os.path.join(core.OUT_DIR, 'replays', '%s-hashseed-%d.json' % (prop, core.run_seed(prop, base, i)))
+                core.jdump({'property': prop, 'kind': 'hashseed', 'base_seed': base, 'run_index': i, 'tier': tier,
+                            'finding_key': 'P2hash', 'digests': hv, 'plan': ad.make_plan(base, i, tier)}, path)
+                print('violation detail: run index %d gives different results under PYTHONHASHSEED=0 and 4242 (each '
+                      'reproducible): %r' % (i, hv))
+                print('VIOLATION property=%s replay=%s' % (prop, path))
+                write_evidence(prop, tier, base, ad, agg, det, [{'i': i, 'key': 'P2hash', 'path': path}], {}, time.time() - t0)
+                return 1
         if not det['identical']:
             print('HARNESS-ERROR determinism self-test failed: %r' % det)
             write_evidence(prop, tier, base, ad, agg, det, [], [], time.time() - t0, status='harness_error')
